@@ -17,24 +17,24 @@ open Edn.Model Edn.Spec Edn.Proofs
     a failed add (only when a request failed), or returns NULL (only for an empty collection or
     when a request failed), or returns a heap array holding exactly the elements added, in
     order - never a partial array -/
-theorem builder_complete_or_null {α : Type} (initCap : Nat) (xs : List α) (sched : List Bool) :
-    match Builder.run initCap xs sched with
+theorem builder_complete_or_null {α : Type} (grow : Nat → Nat) (initCap : Nat) (xs : List α) (sched : List Bool) :
+    match Builder.run grow initCap xs sched with
     | .addFailed i => i < xs.length ∧ false ∈ sched
     | .finished n none => n = xs.length ∧ (xs = [] ∨ false ∈ sched)
     | .finished n (some (st, ys)) => st = .heap ∧ ys = xs ∧ n = xs.length :=
-  builder_outcome initCap xs sched
+  builder_outcome grow initCap xs sched
 
 /-- the array handed to the caller never is the builder's own in-frame storage (which dies with
     the reader's stack frame) -/
-theorem builder_never_returns_frame_storage {α : Type} (initCap : Nat) (xs ys : List α) (sched : List Bool) (n : Nat) (st : Store)
-    (h : Builder.run initCap xs sched = .finished n (some (st, ys))) : st = .heap :=
-  builder_never_returns_stack initCap xs ys sched n st h
+theorem builder_never_returns_frame_storage {α : Type} (grow : Nat → Nat) (initCap : Nat) (xs ys : List α) (sched : List Bool) (n : Nat) (st : Store)
+    (h : Builder.run grow initCap xs sched = .finished n (some (st, ys))) : st = .heap :=
+  builder_never_returns_stack grow initCap xs ys sched n st h
 
 /-- without failing requests every element is delivered -/
-theorem builder_without_faults {α : Type} (initCap : Nat) (xs : List α) (sched : List Bool) (hs : false ∉ sched) :
-    Builder.run initCap xs sched =
+theorem builder_without_faults {α : Type} (grow : Nat → Nat) (initCap : Nat) (xs : List α) (sched : List Bool) (hs : false ∉ sched) :
+    Builder.run grow initCap xs sched =
       .finished xs.length (if xs = [] ∧ initCap ≤ 8 then none else some (.heap, xs)) :=
-  builder_no_faults initCap xs sched hs
+  builder_no_faults grow initCap xs sched hs
 
 /-- duplicate detection degrades hash table -> sorted -> pairwise when scratch memory is
     unavailable; the verdict is the same in every case, and exact -/
@@ -51,7 +51,7 @@ theorem refused_request_changes_nothing (mallocOk : Nat → Bool) (a : Arena) (s
     (h : (a.alloc mallocOk size).1 = none) : (a.alloc mallocOk size).2 = a :=
   (alloc_spec mallocOk a size hinv).2.2.1 h
 
-example : (match (Builder.run 8 [1, 2, 3] [false] : BuildOutcome Nat) with | .finished 3 none => true | _ => false) = true := by decide
-example : (match (Builder.run 8 (List.range 9) [true] : BuildOutcome Nat) with | .finished 9 (some (.heap, ys)) => ys == List.range 9 | _ => false) = true := by decide
+example : (match (Builder.run growHalf 8 [1, 2, 3] [false] : BuildOutcome Nat) with | .finished 3 none => true | _ => false) = true := by decide
+example : (match (Builder.run growHalf 8 (List.range 9) [true] : BuildOutcome Nat) with | .finished 9 (some (.heap, ys)) => ys == List.range 9 | _ => false) = true := by decide
 
 end Edn.Properties.C16
